@@ -18,6 +18,8 @@
 -/
 import ClarabelProofs.Lemmas.Update
 import ClarabelProofs.Lemmas.UpdateAbs
+import ClarabelProofs.Lemmas.UpdateDense
+import ClarabelProofs.Props.C01
 import Mathlib.Tactic.IntervalCases
 
 namespace Clarabel.C08
@@ -304,6 +306,54 @@ example : exStateQ.ScaleOK ∧ (updateP exStateQ (.slice #[5])).1.P.nzval = #[40
     rfl
 
 end field
+
+section certified
+open Clarabel.Dense
+variable [Field α] [LinearOrder α] [IsStrictOrderedRing α] [FloatLike α]
+
+/-- [F] **The next solve is certified for the final data** (corollary of `refines_spec_run`
+and the imported `C01.residual_unscale`).  After any finite history `ops` from a state with
+positive scalings,
+1. the user-level data is the plain-overwrite result `u'` of the specification;
+2. the internal data the next `solve` works on is exactly `Problem.scaled` (`P̂ = cDPD,
+   q̂ = cDq, Â = EAD, b̂ = Eb`) of `u'` with the ORIGINAL positive scalings `d, e, c`
+   (dense reading `denseOf` through `index_to_coord`); hence
+3. C01's residual identities hold verbatim: for every internal iterate `(x̂, ŝ, ẑ, τ)` the
+   user-space residuals of the returned point against the FINAL data are the internal
+   residuals divided by `E τ` resp. `D c τ` — so the termination test of the next solve
+   (C01–C03) certifies the final data, not the data the solver was constructed with.
+Not carried: that the stale equilibration is still a *good* one (known finding
+`KF-C08-stale-equilibration`). -/
+theorem next_solve_certified (st : State α) (h : st.ScaleOK) (ops : List (Op α)) (n m : ℕ)
+    (hn : n = st.q.size) (hm : m = st.b.size)
+    (hd : ∀ i, i < n → 0 < st.d.getD i 0) (he : ∀ i, i < m → 0 < st.e.getD i 0) (hc : 0 < st.c) :
+    let st' := (run st ops).1
+    let sc := st.scaling n m
+    st'.abs = (specRun (checkDataUpdateAllowed st) st.P st.A st.abs ops).1 ∧
+    st'.denseInternal n m = (st'.denseUser n m).scaled sc ∧
+    ∀ (xh : Fin n → α) (sh zh : Fin m → α) (τ : α), 0 < τ →
+      (∀ i, mulV (st'.denseUser n m).A (unX sc τ xh) i + unS sc τ sh i - (st'.denseUser n m).b i
+              = rz (st'.denseInternal n m) xh sh τ i * (1 / sc.e i) * (1 / τ)) ∧
+      (∀ j, mulV (st'.denseUser n m).P (unX sc τ xh) j + mulVT (st'.denseUser n m).A (unZ sc τ zh) j
+              + (st'.denseUser n m).q j
+              = -(rx (st'.denseInternal n m) xh zh τ j * (1 / sc.d j) * (1 / τ) * (1 / sc.c))) := by
+  intro st' sc
+  have hf : SameFrame st st' := run_frame st ops
+  have hsc : st'.scaling n m = sc := by
+    simp only [State.scaling, sc, hf.d, hf.e, hf.c]
+  have hint : st'.denseInternal n m = (st'.denseUser n m).scaled sc := by
+    rw [← hsc]
+    apply denseInternal_eq_scaled st' n m (by rw [hf.q]; exact hn) (by rw [hf.b]; exact hm)
+    · intro i hi; rw [hf.d]; exact (hd i hi).ne'
+    · intro i hi; rw [hf.e]; exact (he i hi).ne'
+    · rw [hf.c]; exact hc.ne'
+  refine ⟨congrArg Prod.fst (abs_run_eq_spec st h ops), hint, ?_⟩
+  intro xh sh zh τ hτ
+  rw [hint]
+  exact C01.residual_unscale (st'.denseUser n m) sc xh sh zh τ
+    (fun j => hd j j.2) (fun i => he i i.2) hc hτ
+
+end certified
 
 /-! ### non-vacuity and the recorded behaviour after a rejected partial update -/
 
